@@ -144,3 +144,21 @@ def confuse(rnd, s, positions=None):
     for i in rnd.sample(cand, n):
         out[i] = rnd.choice(pool_of(s[i], _CONF_CASE if use_case else conf))
     return "".join(out), n
+
+
+PATH_FORMS = ("list", "list", "tuple", "iter", "generator", "map")
+
+
+def path_form(form, path):
+    """The same index path handed over in another shape (derive_path iterates its argument; the unchanged code accepts any
+    iterable).  A shape the code refuses with TypeError is fine; a DIFFERENT node for the same indexes is not."""
+    path = list(path)
+    if form == "tuple":
+        return tuple(path)
+    if form == "iter":
+        return iter(path)
+    if form == "generator":
+        return (i for i in path)
+    if form == "map":
+        return map(int, path)
+    return path
